@@ -108,6 +108,13 @@ func viewFromDesc(d *Desc) cfgView {
 				if a.NoteNeg != nil {
 					av.NoteNeg, av.Bidi = *a.NoteNeg, true
 				}
+				// the emulated keys sound on channel + offset like every other mapping of the axis
+				if a.Off != nil {
+					av.Off = *a.Off
+				}
+				if a.OffNeg != nil {
+					av.OffNeg = *a.OffNeg
+				}
 			case "action":
 				av.Action = *a.Action
 				if a.ActionNeg != nil {
@@ -161,6 +168,7 @@ func viewFromConfig(c *config.Config) cfgView {
 				case config.AnalogPitchBend:
 					av.Off = int(a.ChannelOffset)
 				case config.AnalogKeySim:
+					av.Off, av.OffNeg = int(a.ChannelOffset), int(a.ChannelOffsetNeg)
 					av.Note = int(a.Note)
 					if a.Bidirectional {
 						av.NoteNeg, av.Bidi = int(a.NoteNeg), true
@@ -439,6 +447,8 @@ func genAxisDef(t *rapid.T, sub string, code uint16) AxisDef {
 		if rapid.Bool().Draw(t, "bidi") {
 			a.NoteNeg = intp(rapid.IntRange(0, 127).Draw(t, "noteNeg"))
 		}
+		a.Off = optOff(t, "off")
+		a.OffNeg = optOff(t, "offNeg")
 	case "action":
 		a.Type = "action"
 		a.Action = strp(rapid.SampledFrom(allActions).Draw(t, "action"))
